@@ -303,42 +303,102 @@ def alias_discipline(check: Check) -> None:
         check.require(not bad, "R5", f"{f.qualname}/literal-alias", "no literal library prefix in the representation" if not bad else
                       f"literal prefix {bad[:2]} ignores settings.alias", loc(f))
         n += 1
+    SETTINGS = ("global", "fuzzylite.library.settings")
+    ALIAS = ("attr", SETTINGS, "alias")
+
+    def ret_terms(f: FunctionInfo):
+        r = Resolver(p, f)
+        return r, [(n, r.term(n.ast.value, n)) for n in r.cfg.stmt_nodes() if isinstance(n.ast, ast.Return) and n.ast.value is not None]
+
     for qual in ("Rule.__repr__", "NormLambda.__repr__"):
         f = p.func(qual)
-        src = unparse(f.node)
-        ok = "class_name(self, qualname=True)" in src
-        check.require(ok, "R5", f"{qual}/prefix", "the prefix comes from Op.class_name(self, qualname=True) -> package_of", loc(f))
+        check.analysed(f)
+        r, rets = ret_terms(f)
+        want = ("call", ("global", "fuzzylite.operation.Operation.class_name"), (("param", "self"),), (("qualname", ("const", True)),))
+        ok = bool(rets) and all(t[0] == "fstr" and t[1] and t[1][0] == want for _, t in rets)
+        check.require(ok, "R5", f"{qual}/prefix", "the representation starts with Op.class_name(self, qualname=True), i.e. the prefix of package_of" if ok else
+                      f"representation is {[show(t) for _, t in rets]}", loc(f))
     cn = p.func("Operation.class_name")
-    ok = "representation.package_of(x)" in unparse(cn.node)
-    check.require(ok, "R5", "Operation.class_name/prefix", "qualified class names take their prefix from package_of", loc(cn))
+    check.analysed(cn)
+    r, rets = ret_terms(cn)
+    xp = cn.params[0].name
+    pk = ("call", ("attr", ("global", "fuzzylite.library.representation"), "package_of"), (("param", xp),), ())
+    guarded = False
+    for n in r.cfg.stmt_nodes():
+        if isinstance(n.ast, ast.Assign) and r.term(n.ast.value, n) == pk:
+            guarded = any(pol and r.term(g, gn) == ("param", "qualname") for g, pol, gn in r.cfg.must_guards(n))
+    prefixed = bool(rets) and all(t[0] == "fstr" and t[1] and any(a_ == pk for a_ in (t[1][0][1] if t[1][0][0] == "phi" else [t[1][0]])) for _, t in rets)
+    check.require(guarded and prefixed, "R5", "Operation.class_name/prefix", "qualified class names are prefixed with package_of(x) iff qualname is requested"
+                  if guarded and prefixed else f"class_name returns {[show(t) for _, t in rets]}", loc(cn))
     for qual in ("Representation.repr_float", "Representation.repr_ndarray"):
         f = p.func(qual)
         check.analysed(f)
-        ok = "self.package_of(settings)" in unparse(f.node)
-        check.require(ok, "R5", f"{qual}/prefix", "inf / nan / array are prefixed through package_of", loc(f))
+        r, rets = ret_terms(f)
+        pk2 = ("call", ("attr", ("param", "self"), "package_of"), (SETTINGS,), ())
+        special = [t for _, t in rets if t[0] == "fstr"]
+        ok = bool(special) and all(any(s_ == pk2 for s_ in walk(t)) for t in special)
+        check.require(ok, "R5", f"{qual}/prefix", "inf / nan / array are prefixed through package_of(settings)" if ok else
+                      f"representation is {[show(t) for t in special]}", loc(f))
     ac = p.func("Representation.as_constructor")
-    ok = "self.package_of(cast_as or x)" in unparse(ac.node)
-    check.require(ok, "R5", "Representation.as_constructor/prefix", "constructors are prefixed through package_of", loc(ac))
-    # R8
+    check.analysed(ac)
+    r, rets = ret_terms(ac)
+    ok = bool(rets) and all(t[0] == "fstr" and t[1] and t[1][0][0] == "call" and t[1][0][1] == ("attr", ("param", "self"), "package_of") and
+                            t[1][0][2] and t[1][0][2][0][0] == "bool" and ("param", ac.params[1].name) in t[1][0][2][0][2] for _, t in rets)
+    check.require(ok, "R5", "Representation.as_constructor/prefix", "constructors are prefixed through package_of(cast_as or x)" if ok else
+                  f"constructor text is {[show(t)[:120] for _, t in rets]}", loc(ac))
+    # R8: the alias cases of package_of and import_statement
     po, im = p.func("Representation.package_of"), p.func("Representation.import_statement")
     check.analysed(po)
     check.analysed(im)
 
-    def alias_tests(f: FunctionInfo) -> set[str]:
+    def alias_tests(f: FunctionInfo) -> set:
+        r = Resolver(p, f)
         out = set()
-        for x in ast.walk(f.node):
-            if isinstance(x, ast.If):
-                s = unparse(x.test)
-                if "settings.alias" in s and "startswith" not in s and " and " not in s:
-                    out.add(s)
+        for n in r.cfg.stmt_nodes():
+            if n.kind == "test":
+                t = r.term(n.ast, n)
+                if t == ("unop", "not", ALIAS):
+                    out.add("no alias")
+                elif t[0] == "cmp" and t[1] == ("==",) and ALIAS in t[2]:
+                    other = [x for x in t[2] if x != ALIAS]
+                    out.add(f"alias == {other[0][1]!r}" if other and other[0][0] == "const" else show(t))
         return out
 
-    a, b = alias_tests(po), alias_tests(im)
-    check.require(a == b and len(a) == 2, "R8", "Representation/alias-cases", f"package_of and import_statement distinguish the same alias cases {sorted(a)}"
-                  if a == b else f"package_of tests {sorted(a)}, import_statement tests {sorted(b)}", loc(po))
-    src = unparse(im.node)
-    ok = "'import fuzzylite'" in src and "'from fuzzylite import *'" in src and "import fuzzylite as {settings.alias}" in src
-    check.require(ok, "R8", "Representation.import_statement/forms", "the three import forms match the three prefixes", loc(im))
+    a, b2 = alias_tests(po), alias_tests(im)
+    check.require(a == b2 == {"no alias", "alias == '*'"}, "R8", "Representation/alias-cases",
+                  f"package_of and import_statement distinguish the same alias cases {sorted(a)}" if a == b2 else
+                  f"package_of tests {sorted(a)}, import_statement tests {sorted(b2)}", loc(po))
+    r, rets = ret_terms(im)
+    forms = {}
+    for n, t in rets:
+        gs = []
+        for g, pol, gn in r.cfg.must_guards(n):
+            gt = r.term(g, gn)
+            if gt == ("unop", "not", ALIAS):
+                gs.append(("none", pol))
+            elif gt[0] == "cmp" and ALIAS in gt[2]:
+                gs.append(("star", pol))
+        key = "none" if ("none", True) in gs else ("star" if ("star", True) in gs else "custom")
+        forms[key] = t
+    ok = forms.get("none") == ("const", "import fuzzylite") and forms.get("star") == ("const", "from fuzzylite import *") and \
+        forms.get("custom") == ("fstr", (("const", "import fuzzylite as "), ALIAS))
+    check.require(ok, "R8", "Representation.import_statement/forms", "no alias -> `import fuzzylite`, '*' -> `from fuzzylite import *`, else `import fuzzylite as <alias>`"
+                  if ok else f"import forms: { {k: show(v) for k, v in forms.items()} }", loc(im))
+    # package_of: the prefix for library modules under each case
+    r = Resolver(p, po)
+    assigns = {}
+    for n in r.cfg.stmt_nodes():
+        if isinstance(n.ast, ast.Assign) and isinstance(n.ast.targets[0], ast.Name) and n.ast.targets[0].id == "package":
+            gs = [(r.term(g, gn), pol) for g, pol, gn in r.cfg.must_guards(n)]
+            if any(gt == ("unop", "not", ALIAS) and pol for gt, pol in gs):
+                assigns["none"] = r.term(n.ast.value, n)
+            elif any(gt[0] == "cmp" and ALIAS in gt[2] and pol for gt, pol in gs):
+                assigns["star"] = r.term(n.ast.value, n)
+            elif any(gt[0] == "call" and gt[1][0] == "attr" and gt[1][2] == "startswith" and pol for gt, pol in gs):
+                assigns["custom"] = r.term(n.ast.value, n)
+    ok = assigns.get("star") == ("const", "") and assigns.get("custom") == ALIAS and assigns.get("none", ("const", None))[0] == "attr" and assigns["none"][2] == "__name__"
+    check.require(ok, "R8", "Representation.package_of/prefixes", "no alias -> module name, '*' -> no prefix, else the alias (for library modules)" if ok else
+                  f"prefixes: { {k: show(v) for k, v in assigns.items()} }", loc(po))
 
 
 # ------------------------------------------------------------------------------------------------ R7
@@ -371,9 +431,15 @@ def python_exporter(check: Check) -> None:
     ts = p.func("PythonExporter.to_string")
     check.analysed(enc)
     check.analysed(ts)
-    src = unparse(enc.node)
-    ok = "representation.import_statement()" in src and src.count("repr(instance)") >= 2
-    check.require(ok, "R9", "PythonExporter.encapsulate/content", "encapsulated code = import statement + the object's representation", loc(enc))
+    renc = Resolver(p, enc)
+    rets = [renc.term(n.ast.value, n) for n in renc.cfg.stmt_nodes() if isinstance(n.ast, ast.Return) and n.ast.value is not None]
+    inst = ("param", enc.params[1].name)
+    imp = ("call", ("attr", ("global", "fuzzylite.library.representation"), "import_statement"), (), ())
+    rp = ("call", ("global", "repr"), (inst,), ())
+    alts = [a_ for t in rets for a_ in (t[1] if t[0] == "phi" else [t])]
+    ok = bool(alts) and all(any(s_ == imp for s_ in walk(a_)) and any(s_ == rp for s_ in walk(a_)) for a_ in alts)
+    check.require(ok, "R9", "PythonExporter.encapsulate/content", "encapsulated code = import statement + the object's representation" if ok else
+                  f"encapsulated code is {[show(a_)[:140] for a_ in alts]}", loc(enc))
     r = Resolver(p, ts)
     first = [n for n in r.cfg.stmt_nodes() if isinstance(n.ast, ast.Assign)][0]
     t = r.term(first.ast.value, first)
